@@ -815,12 +815,17 @@ def r_vector_reduce(x, rng):
 
 @recipe("symmetrize")
 def r_symmetrize(x, rng):
-    inds = sorted(x.inds)
-    pairs = [(a, b) for i, a in enumerate(inds) for b in inds[i + 1:] if x.ind_size(a) == x.ind_size(b)]
-    if not pairs:
-        raise Reject("no two labels of equal size")
-    a, b = pick(rng, pairs)
-    return Call(a, b) if rng.integers(0, 2) else Call(b, a)
+    qtn = Q()
+    y = None
+    if x.ndim < 2:
+        other = "b" if x.inds[0] != "b" else "a"
+        y = x = qtn.Tensor(rarr(rng, (2, 2), x.dtype), inds=(x.inds[0], other), tags=x.tags)
+    a, b = pick(rng, sorted(x.inds), 2)
+    if x.ind_size(a) != x.ind_size(b):
+        # construct (rather than hope for) two labels of equal size
+        d = min(x.ind_size(a), x.ind_size(b))
+        y = shrink_ind(shrink_ind(x, a, d), b, d)
+    return Call(a, b, x=y)
 
 
 @recipe("transpose")
@@ -1002,6 +1007,8 @@ def run_pair(case):
         raise Reject("pair no longer exists")
     seed = int(case["seed"])
     info = {"cls": cname, "name": name}
+    if cname != "Tensor":
+        info["exp_nonzero"] = bool(case.get("exp"))
     dflt = inplace_default(cname, name)
     documented_inplace = dflt is True
 
@@ -1125,7 +1132,9 @@ def r_simplify_planted(x, rng):
 @recipe("full_simplify")
 def r_full_simplify(x, rng):
     y = plant(x, pick(rng, ["product", "diag", "column", "antidiag"]), rng) if rng.integers(0, 2) else x
-    return Call(pick(rng, ["ADCR", "ADCRSLP", "R", "SLP"]), x=y, loose=True, tol=INV64)
+    # sequences without 'R' are not drawn: 'SLP' alone never terminates on a tree with a planted diagonal tensor (split and
+    # pair passes undo each other while the network grows) - a library hang outside this property
+    return Call(pick(rng, ["ADCR", "ADCRSLP", "R", "RSLP"]), x=y, loose=True, tol=INV64)
 
 
 @recipe("compress_simplify")
@@ -1223,7 +1232,8 @@ def r_expand(x, rng):
 @recipe("fit")
 def r_fit(x, rng):
     tgt = other_like(x, rng)
-    return Call(tgt, method="als", steps=2, tol=INV64, gauge=True)
+    # over-parameterised bonds make the local normal equations singular: use the least-squares driver
+    return Call(tgt, method="als", steps=2, dense_solve=True, solver_dense="lstsq", tol=INV64, gauge=True)
 
 
 @recipe("fuse_multibonds")
@@ -1302,7 +1312,7 @@ def r_hyperinds(x, rng):
         t.modify(data=np.stack([np.asarray(t.data), 0.5 * np.asarray(t.data)], axis=-1), inds=(*t.inds, "h"))
     if len(keys) < 3:
         return Call()
-    return Call(pick(rng, ["dense", "sparse", "tree"]), x=y, loose=True)
+    return Call(pick(rng, ["dense", "mps", "tree"]), x=y, loose=True)
 
 
 @recipe("insert_compressor_between_regions")
@@ -1861,7 +1871,7 @@ def network_operands(case):
     kind = case["rhs"]
     if kind == "tensor":
         ix = pick(rng, outer(A), 1) + ["x"]
-        B = build_operand_tensor(rng, ix, case["dtype"], tags=("B",))
+        B = qtn.Tensor(rarr(rng, [A.ind_size(ix[0]), 2], case["dtype"]), inds=ix, tags=["B"])
     elif kind == "network":
         cb = {"n": 2 + (case["n"] // 3) % 2, "geom": "chain", "dtype": case["dtype"]}
         # same inner names as A (they clash and must be mangled), outer labels partly shared with A
@@ -1934,7 +1944,7 @@ def run_network_ops(case):
     err = 0.0
     if op in ("&", "|", "&=", "|=", "@"):
         if isinstance(B, qtn.Tensor):
-            lB, vB, mB = sorted(B.inds), dense_on(np.asarray(B.data).astype(np.complex128), B.inds, sorted(B.inds), SIZES_OP), float(np.linalg.norm(np.asarray(B.data).ravel()))
+            lB, vB, mB = obj_value(B)
         else:
             lB, vB, mB = obj_value(B)
         free = sorted(set(lA) ^ set(lB))
